@@ -585,7 +585,8 @@ def compute_all_edges(W):
                     edges.add((host, 'extern ' + short(t.callee.best or '?')))
                 elif crate == 'ggrs' or (t.callee.best or '').startswith('ggrs::') or '<' in (t.callee.best or '')[:1] and 'ggrs' in (t.callee.best or ''):
                     # unresolved trait method of a crate trait (e.g. InputPredictor::predict, NonBlockingSocket::send_to)
-                    edges.add((host, 'trait ' + short(t.callee.best or '?')))
+                    if not any(tr in (t.callee.best or '') for tr in (' as std::cmp::', ' as core::cmp::', ' as std::clone::', ' as core::clone::', ' as std::fmt::', ' as core::fmt::', ' as std::hash::', ' as core::hash::', ' as std::default::')):
+                        edges.add((host, 'trait ' + short(t.callee.best or '?')))   # (a derived comparison / clone / fmt of a crate type is not a crate-trait call)
     return sorted(fns), sorted(edges)
 
 
